@@ -161,7 +161,10 @@ def _decoder_native(h, g):
     mod = importlib.import_module(G["mod"])
     dec = getattr(mod, G["dec"])()
     samples = [G["req"], b"", b"a,b", b"a,b," + G["ident"], b"10.0.0.5,SER1," + G["ident"] + b",ID42" + (b",My, House" if g == 5 else b""),
-               b"a,b,c,d,e,f", b"x," + G["ident"] + b",y", b"h,s," + G["ident"] + b",\xff\xfe" + (b",n" if g == 5 else b"")]
+               b"a,b,c,d,e,f", b"x," + G["ident"] + b",y", b"h,s," + G["ident"] + b",\xff\xfe" + (b",n" if g == 5 else b""),
+               b" 10.0.0.5 , SER 1 ," + G["ident"] + b", ID 42 " + (b", Beach house " if g == 5 else b""),
+               b"h,s," + G["ident"] + b",id" + (b",caf\xe9 \xff" if g == 5 else b"\xe9"),
+               "hé,s€,".encode() + G["ident"] + ",ïd".encode() + (",näme, with, commas,".encode() if g == 5 else b"")]
     for i, dg in enumerate(samples):
         parts = dg.split(b",", G["parts"] - 1)
         vendor = len(parts) == G["parts"] and parts[2] == G["ident"]
@@ -171,6 +174,16 @@ def _decoder_native(h, g):
         except Exception as e:  # noqa: BLE001
             v, err = None, e
         is_resp = isinstance(v, getattr(mod, G["resp"]))
+        if vendor:
+            try:
+                [p.decode() for p in parts]
+                valid_text = True
+            except UnicodeDecodeError:
+                valid_text = False
+            if not valid_text:
+                h.oblige("a vendor-format datagram is only rejected for invalid UTF-8 text", isinstance(err, UnicodeDecodeError), detail=repr(dg))
+                continue
+            h.oblige("it decodes to a response object", err is None and is_resp, detail=repr(dg))
         if vendor and err is None:
             ok = is_resp and v.host == parts[0].decode() and v.serial == parts[1].decode() and v.airtouch_id == parts[3].decode()
             if g == 5:
